@@ -13,7 +13,7 @@ func regS(id, title string, quick int64) {
 }
 
 func regR(id, title string, quick int64) {
-	props[id] = &propSpec{World: func() sim.World { return regul.World{} }, WorldName: "R", QuickRuns: quick, Title: title,
+	props[id] = &propSpec{World: func() sim.World { return regul.World{} }, WorldName: "R", QuickRuns: quick, Title: title, Shards: true,
 		Rule:   "one case = one simulated tournament history (settings max/min, registration batches before and after the start, syncs with eliminations in drawn order, delayed and late release deliveries, stale and unknown table ids, late registrations, repeated status changes) followed by sweeps to a fixpoint; non-trivial = at least one table was opened AND at least one elimination was synced; distinct = distinct (operation, outcome, status, live tables, release in flight) transitions observed in non-trivial runs",
 		Assume: []string{"tables follow the regulator's instructions (release exactly the number asked, seat exactly the players handed out)", "a table never eliminates its last player", "the two callbacks never return an error"}}
 }
